@@ -3,14 +3,14 @@
 # Prints the path of the binary. Cached by a content hash over repo sources and /verif machinery.
 set -euo pipefail
 export GOFLAGS=-mod=mod GOPROXY=off GOSUMDB=off GOTOOLCHAIN=local CGO_ENABLED=0
-VERIF=/verif
+VERIF=$(cd "$(dirname "${BASH_SOURCE[0]}")" && pwd)
 REPO=${VERIF_REPO:-/repo}
 mkdir -p $VERIF/out/build $VERIF/out/bin
 if [ ! -x $VERIF/out/bin/vinstr ] || [ -n "$(find $VERIF/tools -newer $VERIF/out/bin/vinstr -name '*.go' 2>/dev/null)" ]; then
   (cd $VERIF/tools && go build -o $VERIF/out/bin/vinstr ./vinstr) >&2
 fi
 KEY=$( (cd $REPO && find lambda cmd go.mod go.sum -type f \( -name '*.go' -o -name 'go.mod' -o -name 'go.sum' \) -print0 | sort -z | xargs -0 sha256sum; \
-        cd $VERIF && find rt harness entry tools -type f -name '*.go' -print0 | sort -z | xargs -0 sha256sum; echo $REPO) | sha256sum | cut -c1-16)
+        cd $VERIF && find rt harness entry tools -type f -name '*.go' -print0 | sort -z | xargs -0 sha256sum; echo $REPO $VERIF) | sha256sum | cut -c1-16)
 DIR=$VERIF/out/build/$KEY
 BIN=$DIR/rie.verif.test
 exec 9>$VERIF/out/build/.lock
